@@ -321,7 +321,9 @@ def history_job(job):
     import toasty
     from toasty import TilingMethod
 
-    method, maxdepth, ninputs = job
+    method, maxdepth, ninputs = job[:3]
+    # the search can be split over processes by the second call of the history
+    branch = job[3] if len(job) > 3 else None
     part = Part()
     tm = {"TAN": TilingMethod.TAN, "TOAST": TilingMethod.TOAST}[method]
     with scratch("c17c") as d:
@@ -349,6 +351,17 @@ def history_job(job):
                 make_fits(p, w, h, scale, crval=(80.0 + 3 * i, -10.0))
                 paths.append(p)
             kw = {}
+        # a second, different data set for the same output directory (ops "override-other": the directory is re-tiled
+        # with override=True from the OTHER input; a later "reuse" is then the identical call on that input)
+        other = None
+        if ninputs == 1:
+            po = os.path.join(d, "other.fits")
+            if method == "TAN":
+                make_fits(po, 560, 530, 7e-4, crval=(12.0, 21.0))
+                other = (po, {})
+            else:
+                make_fits(po, 36, 36, 0.5, crval=(200.0, 35.0))
+                other = (po, {"start": 3})
         out = os.path.join(d, "out")
         # BFS over call sequences; the state is fully described by "an output of this method exists"
         frontier = [[]]
@@ -357,10 +370,14 @@ def history_job(job):
         for depth in range(maxdepth + 1):
             nxt = []
             for hist in frontier:
-                ops = ["fresh"] if not hist else ["reuse", "override"]
+                ops = ["fresh"] if not hist else ["reuse", "override"] + (["override-other"] if other is not None and hist.count("override-other") < 2 else [])
                 for op in ops:
                     h2 = hist + [op]
                     if len(h2) > maxdepth + 1:
+                        continue
+                    if branch is not None and ((len(h2) == 1 and branch != "reuse") or (len(h2) >= 2 and h2[1] != branch)):
+                        if len(h2) == 1:
+                            nxt.append(h2)
                         continue
                     shutil.rmtree(out, ignore_errors=True)
                     cfg = {"method": method, "inputs": ninputs, "history": h2}
@@ -369,15 +386,18 @@ def history_job(job):
                     try:
                         with quiet():
                             r = None
+                            cur = (paths if len(paths) > 1 else paths[0], kw)
                             for o in h2:
-                                r = toasty.tile_fits(paths if len(paths) > 1 else paths[0], out_dir=out, tiling_method=tm, parallel=1, override=(o == "override"), **dict(kw))
+                                if o == "override-other":
+                                    cur = other if cur[0] != other[0] else (paths[0], kw)
+                                r = toasty.tile_fits(cur[0], out_dir=out, tiling_method=tm, parallel=1, override=o.startswith("override"), **dict(cur[1]))
                         od, bld = r
                     except Exception as e:
                         part.violation("tile_fits/raises:%s/%s" % (type(e).__name__, method), "%r: %r" % (cfg, e), cfg)
                         continue
                     if os.path.normpath(od) != os.path.normpath(out):
                         part.violation("tile_fits/out_dir/%s" % method, "%r: returned out_dir %r" % (cfg, od), cfg)
-                    last = "fresh" if h2[-1] in ("fresh", "override") else "reuse"
+                    last = "fresh" if h2[-1] in ("fresh", "override", "override-other") else "reuse"
                     compare_builder_with_disk(bld, out, part, "%s/%s" % (method, last), cfg)
                     check_wtml_vs_disk(out, part, "tile_fits-%s" % method, cfg)
                     nxt.append(h2)
@@ -512,7 +532,7 @@ def run(tier, seed):
         for fmt in ("png", "jpg", "npy", "fits"):
             jobs.append(("template", scheme, fmt, depth))
     hd = 2 if tier == "quick" else 3
-    jobs += [("history", "TAN", hd, 1), ("history", "TOAST", hd, 1), ("history", "TAN", hd, 2), ("history", "TOAST", 1 if tier == "quick" else 2, 2)]
+    jobs += [("history", "TAN", 3, 1, "reuse"), ("history", "TAN", 3, 1, "override"), ("history", "TAN", 3, 1, "override-other"), ("history", "TOAST", hd, 1), ("history", "TAN", hd, 2), ("history", "TOAST", 1 if tier == "quick" else 2, 2)]
     if tier == "thorough":
         jobs.append(("history", "TOAST", 1, 3))
     wfs = [
@@ -543,7 +563,7 @@ def run(tier, seed):
 def replay(payload):
     r = payload["replay"]
     if "history" in r:
-        p = history_job((r["method"], len(r["history"]) - 1, r["inputs"]))
+        p = history_job((r["method"], len(r["history"]) - 1, r["inputs"]) + ((r["history"][1],) if len(r["history"]) > 1 and r["inputs"] == 1 else ()))
     elif "workflow" in r:
         p = workflow_job(tuple(r["workflow"]))
     else:
